@@ -7,9 +7,6 @@ import (
 	"strings"
 	"sync"
 
-	apierrors "k8s.io/apimachinery/pkg/api/errors"
-	"k8s.io/apimachinery/pkg/runtime/schema"
-
 	"gxverif/hx"
 	"gxverif/plugin"
 )
@@ -126,31 +123,6 @@ func (r Row) Expected() string {
 	return DocAction(in, false)
 }
 
-// fake CRD lookup / custom-resource cache for the rows with a scalable custom resource
-type fakeCrdKey struct{ s *Scalable }
-
-func (f fakeCrdKey) GetGroupVersionResource(appPrefix string) *schema.GroupVersionResource {
-	if f.s.Types[strings.TrimSuffix(appPrefix, "_")] {
-		return &schema.GroupVersionResource{Group: "apps.tkestack.io", Version: "v1", Resource: strings.TrimSuffix(appPrefix, "_") + "s"}
-	}
-	return nil
-}
-
-type fakeCrdCache struct {
-	mu sync.Mutex
-	s  *Scalable
-}
-
-func (f *fakeCrdCache) GetReplicas(gvr schema.GroupVersionResource, namespace, name string) (int, error) {
-	f.mu.Lock()
-	defer f.mu.Unlock()
-	typ := strings.TrimSuffix(gvr.Resource, "s")
-	if n, ok := f.s.Replicas[typ][namespace+"/"+name]; ok {
-		return n, nil
-	}
-	return 0, apierrors.NewNotFound(gvr.GroupResource(), name)
-}
-
 func tableConf() plugin.Conf {
 	return plugin.Conf{Pools: []plugin.Pool{{NodeSubnets: []plugin.Subnet{{Base: 0x0a090100, Bits: 24}},
 		Ranges: [][2]uint32{{0x0a0a0002, 0x0a0a0007}}, Gateway: 0x0a0a0001, Bits: 24}},
@@ -228,7 +200,9 @@ func RunRow(e *hx.Env, row Row, mon plugin.Monitor) (observed string, t *plugin.
 			installed = true
 			w.Mon["c03-scalable"] = sc
 			if row.Kind == "crs" {
-				w.Plugin.VerifC03SetCRD(fakeCrdKey{sc}, &fakeCrdCache{s: sc})
+				// the REAL crd key lookup and custom-resource cache (informer started at the first GetReplicas)
+				real := NewRealCRD(sc.Replicas["tapp"], nil)
+				w.Plugin.VerifC03SetCRD(real.Key, real.Cache)
 			}
 		}
 		if step >= len(ops) {
